@@ -319,11 +319,23 @@ def isGate (cfg : Cfg) (i : Instr) : Bool :=
   | some info => info.gate1 || info.gate2
   | none => false
 
+def isMovTag (cfg : Cfg) (i : Instr) : Bool :=
+  match infoOf cfg i.cls with
+  | some info => info.tag == "mov"
+  | none => false
+
+/-- a `mov` whose source register is known (inside a window, any bank) to hold 0, the electron:
+the SDK's `set R4 0; mov R4 R3` of the multi-pair EPR keep, whose target id is computed at run time -/
+def movFromElectron (cfg : Cfg) (tg : List Int) (pre : List Instr) (x : Instr) : Bool :=
+  isMovTag cfg x && (match x.ops with
+    | .reg r0 :: _ => win cfg tg r0 pre == some 0
+    | _ => false)
+
 /-- the condition on the instruction at the head of `post`, given the reversed prefix `pre` -/
 def qstaticAt (cfg : Cfg) (tg : List Int) (pre : List Instr) (x : Instr) : Bool :=
   (setOf cfg x).isSome ||
     ((regsOf x).all (fun r => r.bank != bankQ || (win cfg tg r pre).isSome)
-      && (!isGate2 cfg x || (topRegs x).all (fun r => r.bank == bankQ)))
+      && (!isGate2 cfg x || (topRegs x).all (fun r => r.bank == bankQ) || movFromElectron cfg tg pre x))
 
 def qstaticFrom (cfg : Cfg) (tg : List Int) : List Instr → List Instr → Bool
   | _, [] => true
@@ -331,8 +343,9 @@ def qstaticFrom (cfg : Cfg) (tg : List Int) : List Instr → List Instr → Bool
 
 /-- **QStatic**: every instruction other than `set` reads Q registers only inside a window opened
 by a `set` of that register (straight-line from the `set`, no intervening write, no branch target
-in between), and two-qubit gates name Q registers. This is the shape the SDK emits
-(`set Q0 <id>` immediately before every use). -/
+in between), and two-qubit gates name Q registers — except a `mov` out of a register just `set`
+to 0 (the SDK's multi-pair keep). This is the shape the SDK emits (`set Q0 <id>` immediately before
+every use). -/
 def QStatic (cfg : Cfg) (S : List Instr) : Bool := qstaticFrom cfg (targets cfg S) [] S
 
 end NQ.Tr
